@@ -22,6 +22,8 @@ ROLES0 = {'R': '31', 'B': '34', 'G': '32', 'W': '1', 'F': '2', 'N': '22', 'U': '
           'P': '[38;5',
           # a verbatim setting whose first code belongs to another group than the code that matters (bold, then red)
           'Y': '[1;31',
+          # directive strings with arguments (handed over as str: the library parses them on every use)
+          'M': 'name:rgb(1,2,3)', 'k': 'name:bg_color256(7)',
           'O': '53', 'E': '52', 'I': '3', 'H': '9', 'J': '26', 'S': '11', 'K': '5', 'C': '58;5;9', 'A': '55', 'V': '54',
           'b': 'name:bold', 'r': 'name:fg_red'}
 FG1 = ['31', '34', '32', '33', '35', '36', '91', '94', '92']
